@@ -158,17 +158,29 @@ impl<'a, T: Transport> Transferrer<'a, T> {
                                     dest_path.display()
                                 );
 
-                                // Copy the file
-                                let result = self.copy_file(&source.path, dest_path).await?;
+                                // Copy the file (with its xattrs, ACLs and BSD flags)
+                                let copied = async {
+                                    let result = self.copy_file(&source.path, dest_path).await?;
+                                    self.write_xattrs(source, dest_path).await?;
+                                    self.write_acls(source, dest_path).await?;
+                                    self.write_bsd_flags(source, dest_path).await?;
+                                    Ok::<_, crate::error::SyncError>(result)
+                                }
+                                .await;
 
-                                // Write extended attributes if present
-                                self.write_xattrs(source, dest_path).await?;
-
-                                // Write ACLs if present
-                                self.write_acls(source, dest_path).await?;
-
-                                // Write BSD flags if present (macOS only)
-                                self.write_bsd_flags(source, dest_path).await?;
+                                let result = match copied {
+                                    Ok(result) => result,
+                                    Err(e) => {
+                                        // Give the inode up again so that a waiting member of the
+                                        // group can take over instead of waiting forever
+                                        {
+                                            let mut map = self.hardlink_map.lock().unwrap();
+                                            map.remove(&inode);
+                                        }
+                                        notify.notify_waiters();
+                                        return Err(e);
+                                    }
+                                };
 
                                 // Mark as completed and notify waiters
                                 {
